@@ -55,9 +55,19 @@ func (c *fastCollector) PutMany(_ context.Context, bs []blocks.Block) error {
 var verifyingReaders = []string{"v2br", "inspect", "root", "rootload", "rootloadfast", "v1", "v1load",
 	// not a verifying reader, but a scanning one: BlockReader driven with SkipNext only. It is held to the
 	// truncation clause (and to returning the right CID sequence of a valid archive), not to the hash clause.
-	"v2skip"}
+	"v2skip",
+	// likewise scanning but not verifying: inspection without hashing, and index generation
+	"inspectfast", "genindex"}
 
-func readerNeedsReaderAt(reader string) bool { return reader == "inspect" }
+func readerNeedsReaderAt(reader string) bool { return reader == "inspect" || reader == "inspectfast" }
+
+// scanOnly readers are held to the truncation clause only; countless ones hand back no blocks.
+func scanOnly(reader string) bool {
+	return reader == "v2skip" || reader == "inspectfast" || reader == "genindex"
+}
+func countless(reader string) bool {
+	return reader == "inspect" || reader == "inspectfast" || reader == "genindex"
+}
 
 // scanWith runs one verifying reader over data.
 func scanWith(reader string, data []byte, profile string, del sim.Delivery, opts ReadOpts) (res scanResult) {
@@ -96,13 +106,17 @@ func scanWith(reader string, data []byte, profile string, del sim.Delivery, opts
 				}
 				res.blocks = append(res.blocks, retBlk{md.Cid, nil})
 			}
-		case "inspect":
+		case "inspect", "inspectfast":
 			rd, err := carv2.NewReader(src.(io.ReaderAt), opts.Options()...)
 			if err != nil {
 				res.constructErr = err
 				return
 			}
-			_, err = rd.Inspect(true)
+			_, err = rd.Inspect(reader == "inspect")
+			res.endErr = err
+			res.clean = err == nil
+		case "genindex":
+			_, err := carv2.GenerateIndex(src.(io.Reader), opts.Options()...)
 			res.endErr = err
 			res.clean = err == nil
 		case "root":
@@ -171,7 +185,7 @@ func judgeC02(l *Layout, m Mut, reader string, res scanResult) *Violation {
 	}
 	// (1) whatever was returned hashes to its CID
 	for i, b := range res.blocks {
-		if reader == "v2skip" {
+		if scanOnly(reader) {
 			break // SkipNext returns metadata only
 		}
 		if !Honest(b.c, b.data) {
@@ -181,7 +195,7 @@ func judgeC02(l *Layout, m Mut, reader string, res scanResult) *Violation {
 	reported := res.constructErr != nil || !res.clean
 	switch m.Kind {
 	case "none":
-		if reader == "inspect" {
+		if countless(reader) {
 			if reported {
 				return viol("medium/valid-rejected/"+reader, "%s rejected a valid archive: %v %v", reader, res.constructErr, res.endErr)
 			}
@@ -206,7 +220,7 @@ func judgeC02(l *Layout, m Mut, reader string, res scanResult) *Violation {
 		}
 	case "flip":
 		region, _ := l.Region(m.Off)
-		if reader != "v2skip" && (region == "sec-data" || region == "sec-digest") {
+		if !scanOnly(reader) && (region == "sec-data" || region == "sec-digest") {
 			if !reported {
 				return viol("medium/corruption-unreported/"+reader+"@"+region, "%s ended cleanly (%d blocks) although bit %d of byte %d (%s) was flipped", reader, len(res.blocks), m.Bit, m.Off, region)
 			}
@@ -220,7 +234,7 @@ func judgeC02(l *Layout, m Mut, reader string, res scanResult) *Violation {
 			loader := reader == "rootload" || reader == "rootloadfast" || reader == "v1load"
 			// (a loader's error may be its constructor's, e.g. "no roots": only a clean run is comparable;
 			// the batching loaders hand nothing over unless they end cleanly)
-			if res.constructErr == nil && reader != "inspect" && (!loader || res.clean) {
+			if res.constructErr == nil && !countless(reader) && (!loader || res.clean) {
 				if len(res.blocks) != before {
 					return viol("medium/wrong-block-count/"+reader+"@boundary", "%s returned %d blocks for a cut exactly before section %d", reader, len(res.blocks), before)
 				}
@@ -277,7 +291,51 @@ func RunC02(t *Trace, st *Stats) *Violation {
 	muts = append(muts, Mut{Kind: "none"}) // the valid image itself: every reader must return exactly its blocks
 	big := n > 20000
 	long := !big && n > 3000
-	if big {
+	huge := n > 1<<20
+	if huge {
+		// a section of several MiB: cut at multiples of 256 KiB counted from the start of the file, of
+		// each section body and of its block data, +-1 (the step sizes a reader that grows its buffer
+		// in chunks would use), plus a few bytes around the structure
+		st.Probe("c02:huge-section-image")
+		cuts := map[int64]bool{}
+		add := func(o int64) {
+			for _, d := range []int64{-1, 0, 1} {
+				if o+d > 0 && o+d < n {
+					cuts[o+d] = true
+				}
+			}
+		}
+		for _, sec := range l.Payload.Sections {
+			body := l.DataOffset + sec.Off + int64(sec.LenSize)
+			for o := int64(0); o < 40 && body-int64(sec.LenSize)+o < n; o++ {
+				cuts[body-int64(sec.LenSize)+o] = true
+			}
+			for k := int64(1); k<<18 < int64(sec.CidLen+sec.DataLen); k++ {
+				add(body + k<<18)
+				cuts[body+int64(sec.CidLen)+k<<18] = true
+			}
+		}
+		for k := int64(1); k<<18 < n; k++ {
+			cuts[k<<18] = true
+		}
+		for o := int64(1); o < 60; o++ {
+			cuts[o] = true
+		}
+		for o := n - 3; o < n; o++ {
+			cuts[o] = true
+		}
+		var cl []int64
+		for o := range cuts {
+			cl = append(cl, o)
+		}
+		sort.Slice(cl, func(i, j int) bool { return cl[i] < cl[j] })
+		for _, o := range cl {
+			muts = append(muts, Mut{Kind: "trunc", Off: o})
+		}
+		for k := 0; k < 6; k++ {
+			muts = append(muts, Mut{Kind: "flip", Off: int64(r.Intn(int(n))), Bit: r.Intn(8)})
+		}
+	} else if big {
 		// a large section: cutting at every byte is out of reach, so cut where chunked or buffered
 		// reading could plausibly go wrong: multiples of 4 KiB / 16 KiB counted from the start of the
 		// file and from the start of each section body, +-1, plus every byte near structure
@@ -452,6 +510,14 @@ func GenC02(seed uint64, run int) *Trace {
 	} else if r.Chance(1, 10) {
 		// one large section (beyond 64 KiB, the size at which chunked reading becomes plausible)
 		spec.Blocks = append(spec.Blocks[:min(len(spec.Blocks), 2)], BlkSpec{Kind: Pick(r, []string{"raw", "cbor", "v0"}), Seed: 40, Size: Pick(r, []int{65537, 131072 + 5, 70000, 200000})})
+		if len(spec.Roots) == 0 {
+			spec.Roots = []BlkSpec{{Kind: "raw", Seed: 1, Size: 3}}
+		}
+		spec.NullPad = 0
+	} else if r.Chance(1, 60) {
+		// one section of a few MiB: beyond the chunk sizes a reader that does not trust the declared
+		// length would grow its buffer in
+		spec.Blocks = append(spec.Blocks[:min(len(spec.Blocks), 1)], BlkSpec{Kind: Pick(r, []string{"raw", "v0"}), Seed: 41, Size: Pick(r, []int{2<<20 + 1<<19 + 7, 1<<20 + 1<<18})})
 		if len(spec.Roots) == 0 {
 			spec.Roots = []BlkSpec{{Kind: "raw", Seed: 1, Size: 3}}
 		}
